@@ -829,8 +829,8 @@ class Cache:
 
             if rows:
                 ((rowid, old_filename),) = rows
-                cleanup(old_filename)
                 self._row_update(rowid, now, columns)
+                cleanup(old_filename)
             else:
                 self._row_insert(db_key, raw, now, columns)
 
@@ -1033,8 +1033,8 @@ class Cache:
                     cleanup(filename)
                     return False
 
-                cleanup(old_filename)
                 self._row_update(rowid, now, columns)
+                cleanup(old_filename)
             else:
                 self._row_insert(db_key, raw, now, columns)
 
